@@ -7,7 +7,11 @@
 (*                                                                         *)
 (*   Plan      the task (hook, queue, binding contexts) and what the hook  *)
 (*             process is going to do (exit code, a class per output file) *)
-(*   Prepare   five temporary files with fresh names: the binding-context  *)
+(*   Prepare   (may fail at the i-th file: hooks L189/L190/L193, whose     *)
+(*             temp file names exceed the file-name limit - then the files *)
+(*             created so far are removed and the execution fails without  *)
+(*             a process)                                                  *)
+(*             five temporary files with fresh names: the binding-context  *)
 (*             file holds the contexts of the task, the metrics, patch,    *)
 (*             admission-response and conversion-response files are empty; *)
 (*             working directory and environment of the process            *)
@@ -37,7 +41,7 @@ CONSTANTS Execs,      \* execution ids: {"e1"} or {"e1", "e2"} (e1 runs in queue
           Emit,       \* TRUE: print one JSON case per completed single execution
           Obs         \* TRUE: maintain the observation variable (case generation), FALSE: keep it constant (smaller state space)
 
-Mutations == {"fixedname", "leak-on-error", "ignore-metrics-error", "late-context", "no-cwd", "stale-admission"}
+Mutations == {"fixedname", "leak-on-error", "leak-on-prepare-error", "ignore-metrics-error", "late-context", "no-cwd", "stale-admission"}
 
 ASSUME Mut \subseteq Mutations
 ASSUME Level \in {"full", "pair", "pairq"}
@@ -62,7 +66,12 @@ ClassesOf(k) == IF k \in {"patch", "metrics"}
 
 \* hooks: one at the top of the hooks directory, one in a sub-directory
 HookNames == {"c12a", "sub/c12b"}
-DirOf(h) == IF h = "sub/c12b" THEN "sub" ELSE "."
+\* hooks whose name is so long that the name of a temp file exceeds NAME_MAX (255): the number is the length of the
+\* hook's relative path; the files are created in the order of Kinds, the i-th creation fails
+\*   hook-<name>-binding-context-<uuid>.json = len+63, -metrics- len+55, -admission-response- len+66, -conversion-response- len+67, <name>-object-patch-<uuid> = len+50
+LongHooks == {"L189", "L190", "L193"}
+PrepFail(h) == CASE h = "L189" -> 4 [] h = "L190" -> 3 [] h = "L193" -> 1 [] OTHER -> 0
+DirOf(h) == IF h = "sub/c12b" THEN "sub" ELSE IF h \in LongHooks THEN "long" ELSE "."
 QueueOf(e) == IF e = "e1" THEN "qa" ELSE "qb"
 
 \* binding contexts a task can carry (abstract ids; CtxDesc is what the hook must find in the file, in this order)
@@ -92,14 +101,17 @@ HooksOf(e) == IF Cardinality(Execs) = 1 \/ e = "e2" THEN HookNames ELSE {"c12a"}
 IsBad(c) == c \in Malformed \/ c = "unappliable"
 
 Expected(p) ==
-  LET fail == p.exit # 0 \/ \E k \in Outs : IsBad(p.out[k])
+  LET fail == p.exit # 0 \/ (\E k \in Outs : IsBad(p.out[k])) \/ PrepFail(p.hook) # 0
   IN [status  |-> IF fail THEN "Fail" ELSE "Success",
       must    |-> IF fail THEN {} ELSE {k \in Outs : p.out[k] = "valid"},   \* applied after a successful run
-      mustnot |-> {k \in Outs : p.out[k] # "valid"}]    \* nothing of a malformed file is applied; nothing the process did not write
+      mustnot |-> IF PrepFail(p.hook) # 0 THEN Outs ELSE {k \in Outs : p.out[k] # "valid"}]    \* nothing of a malformed file is applied; nothing the process did not write
 
 WithExpect(p) == [hook |-> p.hook, queue |-> p.queue, ctxs |-> p.ctxs, exit |-> p.exit, out |-> p.out, expect |-> Expected(p)]
 Plans(e) == {WithExpect([hook |-> h, queue |-> QueueOf(e), ctxs |-> c, exit |-> x, out |-> o]) :
                h \in HooksOf(e), c \in CtxListsOf(e), x \in {0, 1}, o \in Combos}
+            \cup (IF Cardinality(Execs) = 1 \/ e = "e2"      \* the process of these never runs: one plan each (it would apply everything)
+                  THEN {WithExpect([hook |-> h, queue |-> QueueOf(e), ctxs |-> <<"s1">>, exit |-> 0, out |-> [k \in Outs |-> "valid"]]) : h \in LongHooks}
+                  ELSE {})
 
 -----------------------------------------------------------------------------
 \* file contents: all values are sequences so that TLC can compare them
@@ -173,6 +185,7 @@ NewNames(e) == IF "fixedname" \in Mut
 
 Prepare(e) ==
   /\ pc[e] = "planned"
+  /\ PrepFail(plan[e].hook) = 0
   /\ ("fixedname" \in Mut \/ nextName + 4 <= MaxNames)
   /\ LET nn == NewNames(e)
          nset == {nn[k] : k \in KindSet}
@@ -189,6 +202,25 @@ Prepare(e) ==
   /\ pc' = [pc EXCEPT ![e] = "prepared"]
   /\ act' = <<"Prepare", e>>
   /\ UNCHANGED <<plan, seen, exitcode, parsed, res, lastAdm>>
+
+\* a file cannot be created: the files created before it are removed again, the execution fails before a process exists
+PrepareFail(e) ==
+  /\ pc[e] = "planned"
+  /\ PrepFail(plan[e].hook) # 0
+  /\ ("fixedname" \in Mut \/ nextName + 4 <= MaxNames)
+  /\ LET nn == [k \in KindSet |-> IF KindIdx(k) < PrepFail(plan[e].hook) THEN NewNames(e)[k] ELSE 0]
+         nset == {nn[k] : k \in KindSet} \ {0}
+     IN /\ names' = [names EXCEPT ![e] = nn]
+        /\ reused' = (reused \/ nset \cap used # {})
+        /\ used' = used \cup nset
+        /\ nextName' = IF "fixedname" \in Mut THEN nextName ELSE nextName + 5
+        /\ fs' = IF "leak-on-prepare-error" \in Mut
+                 THEN [n \in Names |-> IF n = nn["ctx"] THEN Ctx(plan[e].ctxs) ELSE IF n \in nset THEN Cls("empty") ELSE fs[n]]
+                 ELSE fs
+  /\ res' = [res EXCEPT ![e] = [status |-> "Fail", applied |-> {}, stage |-> "prepare"]]
+  /\ pc' = [pc EXCEPT ![e] = "done"]
+  /\ act' = <<"PrepareFail", e>>
+  /\ UNCHANGED <<plan, cwd, env, seen, exitcode, parsed, lastAdm>>
 
 \* ---- ExecStart: the process looks around
 ExecStart(e) ==
@@ -264,10 +296,10 @@ Cleanup(e) ==
   /\ act' = <<"Cleanup", e>>
   /\ UNCHANGED <<plan, names, cwd, env, used, reused, nextName, seen, exitcode, parsed, res, lastAdm>>
 
-Step(e) == PlanStep(e) \/ Prepare(e) \/ ExecStart(e) \/ ExecExit(e) \/ Parse(e) \/ Apply(e) \/ Cleanup(e)
+Step(e) == PlanStep(e) \/ Prepare(e) \/ PrepareFail(e) \/ ExecStart(e) \/ ExecExit(e) \/ Parse(e) \/ Apply(e) \/ Cleanup(e)
 
-AllExist(e) == \A k \in KindSet : fs'[names'[e][k]] # Absent
-AllGone(e) == \A k \in KindSet : fs'[names'[e][k]] = Absent
+AllExist(e) == \A k \in KindSet : names'[e][k] # 0 /\ fs'[names'[e][k]] # Absent
+AllGone(e) == \A k \in KindSet : names'[e][k] # 0 => fs'[names'[e][k]] = Absent
 
 Next == /\ \E e \in Execs : Step(e)
         /\ obs' = IF Obs THEN [live |-> {e \in Execs : pc'[e] = "running" /\ AllExist(e)},
@@ -279,8 +311,8 @@ Spec == Init /\ [][Next]_vars
 -----------------------------------------------------------------------------
 \* properties
 
-Started(e) == pc[e] \in {"running", "exited", "parsed", "applied", "done"}
-Assigned(e) == pc[e] \notin {"new", "planned"}
+Started(e) == pc[e] \in {"running", "exited", "parsed", "applied", "done"} /\ res[e].stage # "prepare"
+NameSet(e) == {names[e][k] : k \in KindSet} \ {0}
 
 TypeOK == /\ pc \in [Execs -> {"new", "planned", "prepared", "running", "exited", "parsed", "applied", "done"}]
           /\ \A e \in Execs : \A k \in KindSet : names[e][k] \in Names \cup {0}
@@ -297,9 +329,9 @@ ContextsExact == \A e \in Execs : Started(e) => seen[e].files["ctx"] = Ctx(plan[
 
 \* no temp file name is shared: within an execution, between concurrent executions, with any earlier execution
 FreshNames == /\ ~reused
-              /\ \A e \in Execs : Assigned(e) => Cardinality({names[e][k] : k \in KindSet}) = 5
-              /\ \A e1, e2 \in Execs : (e1 # e2 /\ Assigned(e1) /\ Assigned(e2)) =>
-                    {names[e1][k] : k \in KindSet} \cap {names[e2][k] : k \in KindSet} = {}
+              /\ \A e \in Execs : \A k1, k2 \in KindSet : (k1 # k2 /\ names[e][k1] # 0) => names[e][k1] # names[e][k2]
+              /\ \A e \in Execs : Started(e) => Cardinality(NameSet(e)) = 5
+              /\ \A e1, e2 \in Execs : e1 # e2 => NameSet(e1) \cap NameSet(e2) = {}
 
 \* failure iff non-zero exit, malformed output or an output that cannot be applied; nothing of a malformed file is applied;
 \* after a success every valid output is applied
@@ -311,7 +343,7 @@ ResultRule == \A e \in Execs : pc[e] \in {"applied", "done"} =>
                    /\ x.mustnot \cap res[e].applied = {}
 
 \* after Cleanup none of the files of the execution exists, whatever the outcome; at the end the directory is empty
-NoLeftovers == /\ \A e \in Execs : pc[e] = "done" => \A k \in KindSet : fs[names[e][k]] = Absent
+NoLeftovers == /\ \A e \in Execs : pc[e] = "done" => \A n \in NameSet(e) : fs[n] = Absent
                /\ (\A e \in Execs : pc[e] = "done") => \A n \in Names : fs[n] = Absent
 
 \* while the process runs its files are there; nobody else touches what it wrote before it is read back
@@ -328,15 +360,18 @@ SingleSchedule(e) ==
      [act |-> <<"ExecStart", e>>, live |-> {e}, gone |-> {}], [act |-> <<"ExecExit", e>>, live |-> {}, gone |-> {}],
      [act |-> <<"Parse", e>>, live |-> {}, gone |-> {}], [act |-> <<"Apply", e>>, live |-> {}, gone |-> {}],
      [act |-> <<"Cleanup", e>>, live |-> {}, gone |-> {e}] >>
+FailedPrepareSchedule(e) ==
+  << [act |-> <<"Plan", e>>, live |-> {}, gone |-> {}], [act |-> <<"PrepareFail", e>>, live |-> {}, gone |-> {e}] >>
+ScheduleOf(e) == IF PrepFail(plan[e].hook) # 0 THEN FailedPrepareSchedule(e) ELSE SingleSchedule(e)
 ScheduleFaithful == (Obs /\ Cardinality(Execs) = 1) =>
-                      \A e \in Execs : \A i \in 1..7 : act = SingleSchedule(e)[i].act =>
-                         (obs.live = SingleSchedule(e)[i].live /\ obs.gone = SingleSchedule(e)[i].gone)
+                      \A e \in Execs : \A i \in 1..Len(ScheduleOf(e)) : act = ScheduleOf(e)[i].act =>
+                         (obs.live = ScheduleOf(e)[i].live /\ obs.gone = ScheduleOf(e)[i].gone)
 
 CaseOf(e) ==
   LET p == plan[e]  x == Expected(p)
   IN [hook |-> p.hook, cwd |-> DirOf(p.hook), queue |-> p.queue, exit |-> p.exit, out |-> p.out,
       ctxs |-> [i \in 1..Len(p.ctxs) |-> CtxDesc(p.ctxs[i])],
-      envvars |-> EnvVars, steps |-> SingleSchedule(e),
+      envvars |-> EnvVars, steps |-> ScheduleOf(e), prepfail |-> PrepFail(p.hook),
       status |-> x.status, must |-> x.must, mustnot |-> x.mustnot,
       applied |-> res[e].applied, stage |-> res[e].stage]
 
@@ -345,7 +380,7 @@ EmitCase == (Emit /\ Cardinality(Execs) = 1 /\ \A e \in Execs : pc[e] = "done") 
 
 \* what the behaviour export needs besides the variables (evaluated by TLC, printed once)
 Tables == [ctxdesc |-> [c \in {"s1", "s2", "ka", "km", "kd"} |-> CtxDesc(c)], envvars |-> EnvVars,
-           dirs |-> [h \in HookNames |-> DirOf(h)]]
+           dirs |-> [h \in HookNames \cup LongHooks |-> DirOf(h)], prepfail |-> [h \in HookNames \cup LongHooks |-> PrepFail(h)]]
 EmitTables == (pc = [e \in Execs |-> "new"]) => PrintT("@@" \o ToJson([tables |-> Tables]))
 
 =============================================================================
